@@ -153,6 +153,18 @@ func (f *formatter) Root(n *ast.Root) {
 	f.addIndent()
 
 	f.formatStmts(&n.Stmts)
+
+	if n.EndTkn != nil {
+		// whitespace and comments at the end of the source are dropped like everywhere else;
+		// the data after __halt_compiler(); stays
+		var tail []*token.Token
+		for _, t := range n.EndTkn.FreeFloating {
+			if t.ID == token.T_HALT_COMPILER {
+				tail = append(tail, t)
+			}
+		}
+		n.EndTkn.FreeFloating = tail
+	}
 }
 
 func (f *formatter) Nullable(n *ast.Nullable) {
